@@ -1583,6 +1583,15 @@ class Models:
             return [Res("ok", st, PTuple([]))]
         if n == "classmethod" or n == "staticmethod":
             return [Res("ok", st, pos[0])]
+        if n == "method" and len(pos) == 2 and not kw:
+            # types.MethodType(func, obj): a new method object
+            st = st.fork()
+            a = st.new_addr()
+            st.put("cls_of", a, z3.IntVal(CLS.cid("method")))
+            d = z3.Store(z3.Store(z3.K(I, ABSENT), STR.sid("__func__"), eng.to_val(st, pos[0])),
+                         STR.sid("__self__"), eng.to_val(st, pos[1]))
+            st.put("idict", a, d)
+            return [Res("ok", st, vref(a))]
         raise Unsupported("constructor %s(...)" % n)
 
     def set_from(self, eng, st, src, fx):
